@@ -59,6 +59,7 @@ def gen_case(rng, tier):
     n_nodes = rng.choice([3, 4, 6, 8, 10]) if tier == "quick" else rng.choice([3, 4, 6, 8, 10, 16, 24])
     # tie-prone graphs: few distinct structures, so that equally frequent constraints abound
     triples = gen.gen_graph(rng, n_nodes=n_nodes, n_classes=rng.randint(1, 3), n_props=rng.randint(2, 5), kinds=kinds,
+                            bnodes=(endpoint and rng.random() < 0.3),   # answers with bnode bindings (labels are the endpoint's own)
                             density=rng.choice([0.5, 0.7, 0.9]), twins=0 if endpoint else 0.06)
     tp = gen.CUSTOM_TYPE if rng.random() < 0.12 else gen.RDF_TYPE
     triples = gen.retype(gen.ensure_class(triples), tp)
@@ -87,8 +88,9 @@ def gen_case(rng, tier):
         options["instantiation_property"] = tp
     if rng.random() < 0.15:
         options["detect_minimal_iri"] = True
-    if rng.random() < 0.1:
-        options["examples_mode"] = rng.choice(["all", "shape", "cons"])
+    has_bn = any(t[2][0] == "b" for t in triples)
+    if rng.random() < (0.7 if (endpoint and has_bn) else 0.1):
+        options["examples_mode"] = rng.choice(["all", "cons", "cons", "shape"])
     if channel == "endpoint_deep":
         options["depth_for_building_subgraph"] = 2
         options["strict_syntax_with_corners"] = True
